@@ -7,7 +7,7 @@ def plan(tier):
     quick = tier == "quick"
 
     def params(i, jit):
-        return {"fault_config": ["none", "failing"][i % 2], "max_ops": 14}
+        return {"fault_config": ["none", "failing"][i % 2], "max_ops": 14 if quick or i % 3 else 22}
 
     def evidence(agg, det, tier, seed, wall, t_main, n_new, replays, unprocessed):
         return _common_evidence(
